@@ -72,10 +72,31 @@ def gen_sched(rng, nthreads, kind):
     return s
 
 
+def handover_case(rng, cid):
+    """3 threads on 2 listed nodes, jittered around the schedule in which add_knowing_refcount_is_zero loses its
+    head CAS after a stale getter took a reference (the add is handed over to that getter)"""
+    j = lambda x: max(0, x + rng.below(3) - 1)
+    perm = [0, 1, 2]
+    # random roles
+    for a in range(2, 0, -1):
+        b = rng.below(a + 1); perm[a], perm[b] = perm[b], perm[a]
+    g2, t, u = perm
+    threads = [None, None, None]
+    threads[g2] = [[1]] + ([[2, 0]] if rng.chance(1, 2) else [])
+    threads[t] = [[1], [2, 0]] + ([[1]] if rng.chance(1, 2) else [])
+    threads[u] = [[1]] + ([[2, 0]] if rng.chance(1, 2) else [])
+    sched = [g2] * j(2) + [t] * j(9) + [u] * j(7) + [t] * j(2) + [g2] * j(2) + [t] * j(3) + [g2] * j(12)
+    sched += [rng.below(3) for _ in range(rng.below(20))]
+    return mk_case(cid, 0 if rng.chance(3, 4) else 2, 2, 2, [], threads, sched, [rng.below(2) for _ in range(3)])
+
+
 def gen_cases(ctx, n, prefix="g", variants=(0, 0, 0, 1, 2, 2, 3)):
     rng = ctx.rng
     cases = []
     for i in range(n):
+        if rng.chance(1, 8):
+            cases.append(handover_case(rng, "%s%d" % (prefix, i)))
+            continue
         variant = variants[rng.below(len(variants))]
         nthreads = 2 + rng.below(3)
         nnodes = 1 + rng.below(3)
@@ -271,9 +292,11 @@ def process(ctx, model, impl, cases, stats, tag, report=True, chunk=1500):
 def run(ctx):
     res = vcheck.coq_build(["Properties/Properties_C21.v"])
     ctx.coq_evidence(res)
+    ctx.log("coq: %d/%d obligations, %.1fs" % (len(res.discharged), len(res.obligations), res.wall_s))
     model = conc_check.build_model(ctx, "Extract_FreeList.v")
     impl = vcheck.cxx_build(os.path.join(vcheck.VERIF, "harness/C21/main.cpp"), os.path.join(ctx.work, "harness"),
                             hook=True, link_cds=False, extra=EXTRA)
+    ctx.log("model and harness built")
     stats = new_stats()
     trusted = vcheck.STD_TRUSTED + ["hook layer: khizmax_libcds_verif::atomic<T>, baton scheduler, event log (hooks/include)", "ocaml/conc_main.ml event printer",
                                     "harness/C21/main.cpp: pooled worker threads chosen by std::hash<std::thread::id> & 3 (cache slot), ownership-map, drain and watchdog monitors",
@@ -304,6 +327,7 @@ def run(ctx):
     cases += gen_cases(ctx, nrandom)
     samples = cases[ncorpus:ncorpus + 2]
     first_div, hits = process(ctx, model, impl, cases, stats, "c")
+    ctx.log("corpus + random: %d cases, %d diverged, %d monitor hits" % (stats["n"], stats["diverged"], len(hits)))
     nsweep = 0
     sweep_desc = []
     # systematic sweep: every schedule with at most `sw` context switches
@@ -323,6 +347,7 @@ def run(ctx):
         fd2, h2 = process(ctx, model, impl, sc, stats, "w%d%d" % (v, p))
         first_div = first_div or fd2
         hits += h2
+    ctx.log("sweep: %d cases, total diverged %d, monitor hits %d" % (nsweep, stats["diverged"], len(hits)))
 
     if (first_div is not None or not res.ok) and not hits:
         # the correspondence (or a proof) broke: look for a concrete failure of the property over more seeds
